@@ -1,0 +1,44 @@
+//go:build verif
+
+// Contracts for gzv (contract-based deductive verification, /verif). Comment-only file.
+package conf
+
+// ---------------------------------------------------------------------------------------------
+// C17 (claimed narrowly: the funnel). YAML and TOML go through their converter and then through the one JSON loader,
+// with no format-specific option; the JSON loader always uses the lower-cased key map together with the lower-casing
+// canonical key function; environment variables are expanded iff the UseEnv option is set.
+// ---------------------------------------------------------------------------------------------
+//@ func LoadFromYamlBytes
+//@   property C17
+//@   ghost at entry: jr = nil
+//@   ghost at after YamlToJson#0: cb = ret0
+//@   ghost at after YamlToJson#0: ce = ret1
+//@   ghost at after LoadFromJsonBytes#0: jr = ret
+//@   call LoadFromJsonBytes#0: assert sameSlice(arg_content, cb) && arg_v == v && ce == nil
+//@   ensures implies(ce != nil, result == ce) && implies(ce == nil, result == jr)
+
+//@ func LoadFromTomlBytes
+//@   property C17
+//@   ghost at entry: jr = nil
+//@   ghost at after TomlToJson#0: cb = ret0
+//@   ghost at after TomlToJson#0: ce = ret1
+//@   ghost at after LoadFromJsonBytes#0: jr = ret
+//@   call LoadFromJsonBytes#0: assert sameSlice(arg_content, cb) && arg_v == v && ce == nil
+//@   ensures implies(ce != nil, result == ce) && implies(ce == nil, result == jr)
+
+//@ func LoadFromJsonBytes
+//@   property C17
+//@   ghost at after toLowerCaseKeyMap#0: lk = ret
+//@   ghost at after WithCanonicalKeyFunc#0: ck = ret
+//@   call WithCanonicalKeyFunc#0: assert arg0 == toLowerCase
+//@   call UnmarshalJsonMap#0: assert arg0 == lk && arg1 == v && arg2 == ck
+
+//@ func Load
+//@   property C17
+//@   flag callbacks_noheap
+//@   ghost at entry: ee = false
+//@   ghost at before ExpandEnv#0: ee = true
+//@   call ExpandEnv#0: assert opt.env
+//@   call loader#0: assert opt.env && ee && arg1 == v
+//@   call loader#1: assert !opt.env && sameSlice(arg0, content) && arg1 == v
+//@   loop 0: invariant true
